@@ -156,8 +156,10 @@ def check_c05(prop, tier, seed):
 
 def c06_matrix(seed, tier):
     s = seed
-    m = [dict(kind='gauss', n_batch=4, n_live=20, seed=51 + s, mseed=s, n_like_max=72, resume_budget=88,
-              runkw=dict(n_eff=25, discard_exploration=True)),
+    # the first configuration runs to completion: first batch, updates, bound insertions, end of exploration
+    # and sampling-phase updates are all among its checkpoints
+    m = [dict(kind='gauss', n_batch=5, n_live=10, n_points_min=3, seed=51 + s, mseed=s, n_like_max=400, resume_budget=420,
+              runkw=dict(n_eff=30, discard_exploration=True, n_shell=6)),
          dict(kind='two', n_batch=5, n_live=20, n_networks=1, blob='multi', periodic=[0], seed=52 + s, mseed=s,
               n_like_max=150, resume_budget=170, n_update=20, runkw=dict(n_eff=40, discard_exploration=False))]
     if tier == 'thorough':
@@ -199,14 +201,16 @@ def check_c06(prop, tier, seed):
             suspicious = sorted(set(n for _, _, n in fails))
             for n in suspicious[:40]:
                 ks = sorted(set(ks) | {n, n + 1})
-            outs = common.pmap(kill.kill_at, [(cfg, d, n, digs, tier == 'thorough' or i % 3 == 0) for i, n in enumerate(ks)])
+            kp = kill.kill_points(events)
+            outs = common.pmap(kill.kill_at, [(cfg, d, n, digs, tier == 'thorough' or i % 3 == 0) + kp[n]
+                                              for i, n in enumerate(ks)])
             n_kills += len([o for o in outs if o['killed']])
             bad = [o for o in outs if o['problem']]
             if bad:
                 o = bad[0]
                 rep.violation('%s:kill-leaves-%s' % (key, o['problem']),
-                              'kill at system call %d of %d on the checkpoint paths: %s (%d such kill points of %d tried) [config %s]' % (
-                                  o['n'], n_sys, o['detail'], len(bad), len(outs), json.dumps(cfg)),
+                              'kill at system call %d of %d on the checkpoint paths (%s #%d): %s (%d such kill points of %d tried) [config %s]' % (
+                                  o['n'], n_sys, o['sc'], o['k'], o['detail'], len(bad), len(outs), json.dumps(cfg)),
                               dict(cfg=cfg, kill_at=o['n'], all_bad=[b['n'] for b in bad][:50],
                                    event=[e for e in events if e['n'] == o['n']]))
             if fails or mainstays:
